@@ -96,4 +96,8 @@ MUTANTS = [
     {"id": "c13-reader-strips-blanks-around-separators", "expect": "fire", "edits": [(P, "from typing import Iterator\n", "import re\nfrom typing import Iterator\n"), (P, "        # 1.1. find field name\n        chunks = [s.strip() for s in fmt.split(\":\")]", "        fmt = re.sub(r\"\\s*(<-|[-/!:()])\\s*\", r\"\\1\", fmt)\n        # 1.1. find field name\n        chunks = [s.strip() for s in fmt.split(\":\")]")]},
     {"id": "c13-reader-lowercases", "expect": "fire", "edits": [(P, "        # 1.1. find field name\n        chunks = [s.strip() for s in fmt.split(\":\")]", "        fmt = fmt.lower()\n        # 1.1. find field name\n        chunks = [s.strip() for s in fmt.split(\":\")]")]},
     {"id": "c13-n-reader-strips-ends", "expect": "silent", "edits": [(P, "        # 1.1. find field name\n        chunks = [s.strip() for s in fmt.split(\":\")]", "        fmt = fmt.strip()\n        # 1.1. find field name\n        chunks = [s.strip() for s in fmt.split(\":\")]")]},
+    # R13d, path form: a limits-only fast path that keeps the current format object
+    {"id": "c13-set-fmt-limits-only-fast-path", "expect": "fire", "edits": [(P, "        new_fmt_obj = self._ppt_fmt.clone()\n        parsed_fmt = PPTableFormat._parse_fmt(fmt)\n", "        parsed_fmt = PPTableFormat._parse_fmt(fmt)\n        if parsed_fmt.cols_parsed_fmt.columns == \"\":\n            self._ppt_fmt.set_limits(parsed_fmt.vis_lines)\n            return self\n        new_fmt_obj = self._ppt_fmt.clone()\n")],
+     "note": "print, then fmt=';1:1', then str(fmt): the lines-skipped flag of the earlier print survives"},
+    {"id": "c13-n-set-fmt-parse-first", "expect": "silent", "edits": [(P, "        new_fmt_obj = self._ppt_fmt.clone()\n        parsed_fmt = PPTableFormat._parse_fmt(fmt)\n", "        parsed_fmt = PPTableFormat._parse_fmt(fmt)\n        new_fmt_obj = self._ppt_fmt.clone()\n")]},
 ]
